@@ -30,6 +30,10 @@ PROP = {  # commit subject prefix -> property
  "the Turtle serialisers write": "C03", "the Turtle serialisers keep": "C03", "pretty-xml writes": "C03",
  "pretty-xml accepts": "C03", "the Turtle serialisers declare": "C03", "the Turtle shorthand for xsd:decimal": "C03",
  "relative IRI references are resolved": "C05",
+ "SPARQL XML results write a carriage return": "C16", "SPARQL XML serialisation refuses": "C16",
+ "SPARQL XML results keep a literal's empty datatype": "C16", "the TSV result reader splits lines": "C16",
+ "GRAPH over a name that is not a graph": "C04", "logical-and is false": "C04",
+ "a query may declare two prefixes": "C15", "an empty solution passed to QueryContext.clone": "C04",
 }
 
 def main():
